@@ -318,6 +318,12 @@ def run(ctx):
         tree = build(roots, data, (S, G), incremental, rng)
         nodes, tops, root_lr = observe(tree)
         tree2 = Tree.from_dict(tree.to_dict())
+        if ci % 3:  # two thirds also go through shape-preserving edits (prune + graft back, relabel): ids / child order change
+            from ..trees import scramble
+
+            hist = [rng.choice([("regraft", rng.randrange(1000)), ("relabel",)]) for _ in range(rng.randint(1, 3))]
+            tree2 = scramble(tree2, hist)
+            ctx.count("second_view=from_dict+edits")
         nodes2, tops2, root_lr2 = observe(tree2)
         sig = shape_sig(f)
         ctx.count("clones=%d" % sig[0])
